@@ -1,5 +1,6 @@
 import Rn.Basic
 import Rn.Stage2
+import Rn.ProtocolFacts
 
 /-! # C13 — property theorems (statements only; proofs live in the family libraries) -/
 
@@ -37,6 +38,35 @@ theorem applyMatches_perm :
     (h : applyMatches del add ms = some (del', add')),
     (ms.map (·.1) ++ del').Perm del ∧ (ms.map (·.2) ++ add').Perm add :=
   @Rn.applyMatches_perm
+end
+
+section
+open RnP
+
+/-- the hand-off protocol of the two concurrent matchers, for every schedule: whenever both have returned at least one
+ran to completion (the "Impossible happened" panic is unreachable) and `finished` never holds more than its two slots -/
+theorem handoff_safe :
+    ∀ (es : List Ev) (ha : (run init es).a ≠ .running) (hb : (run init es).b ≠ .running),
+    ((run init es).a = .completed ∨ (run init es).b = .completed) ∧ (run init es).tokens ≤ 2 :=
+  @RnP.handoff_safe
+
+/-- no step of a running matcher waits for the other one -/
+theorem never_blocked :
+    ∀ (s : St) (w : Who) (h : phase s w = .running),
+    (step s (.work w)).isSome ∧ (step s (.complete w)).isSome :=
+  @RnP.never_blocked
+
+/-- what the protocol model assumes about the source, re-read from internal/plumbing/renames.go on every run -/
+theorem protocol_facts :
+    Gen.renameChanCaps = [("finished", 2), ("finishedA", 1), ("finishedB", 1)] ∧
+    Gen.renameUnbufferedChans = ["errs"] ∧
+    Gen.rename_matchA = [("deferred sends to finished", 1), ("polls of finished", 1), ("returns on a received message", 1),
+      ("returns after an error send", 1), ("other returns", 0)] ∧
+    Gen.rename_matchA_lastSend = "finishedA" ∧
+    Gen.rename_matchB = [("deferred sends to finished", 1), ("polls of finished", 1), ("returns on a received message", 1),
+      ("returns after an error send", 1), ("other returns", 0)] ∧
+    Gen.rename_matchB_lastSend = "finishedB" :=
+  RnP.protocol_facts
 end
 
 end Props.C13
